@@ -1,6 +1,6 @@
 from props import _writer
 SPEC = _writer.spec("C09", "Serialized objects parse back to the same value", "W_serializer.rs")
-SPEC["only_obligations"] = ["string_token_1", "string_token_2", "name_token"]
+SPEC["only_obligations"] = ["string_token_1", "string_token_2", "name_token_1", "name_token"]
 SPEC["outside_claim"] = [
     "the library's own lexer as the reader (Lexer over std::io::Read: not assembled; the reader here is the in-harness ISO 32000-1 7.3.4.2 / 7.3.5 transcription, i.e. the 'independent reader' half of the property)",
     "integers, reals (float formatting), arrays, dictionaries, streams, references, nesting (the recursive serializer explodes under recursion unwinding, measured), object streams",
